@@ -141,6 +141,8 @@ def run(repo: Repo, rep: Report, tier: str) -> None:
     _c09.run(repo, Only(rep, {"R09.2"}), tier)
     from ..core import helper_contracts as _hc2
     _hc2.report(repo, rep, "R09.6", _hc2.dataclass_fields_contract(repo), "mashumaro.core.meta.code.builder::CodeBuilder.dataclass_fields")
+    from ..core import helper_contracts as _hc3
+    _hc3.report(repo, rep, "R01.6", _hc3.type_param_collection_contract(repo), "mashumaro.core.meta.helpers::collect_type_params")
 
 # --------------------------------------------------------------------------- R01.2 sign domain
 def _r01_2(repo: Repo, rep: Report) -> None:
@@ -297,3 +299,6 @@ LEVEL_TEXT += _ADDENDUM
 _ADD3 = " Borrowed: R09.6 (dataclass_fields: the nearest ancestor's Field wins; a bare re-annotation drops the inherited Field)."
 EXPLANATION += _ADD3
 LEVEL_TEXT += _ADD3
+_ADD7 = ' R01.6: collect_type_params returns every type variable once (each insertion is guarded by a membership test), which type-parameter substitution for nested generic dataclasses depends on.'
+EXPLANATION += _ADD7
+LEVEL_TEXT += _ADD7
